@@ -323,6 +323,142 @@ fn long_game(p: &Pos, plies: usize, seed: u64) -> Vec<Mv> {
     out
 }
 
+/// A legal game of thousands of plies from the start position, built (not drawn): blocks of at most
+/// 148 plies in which only knights move, along a path that visits no position twice, separated by
+/// single pawn pushes (32 of them exist without captures). So no position occurs twice in the whole
+/// game and no 75 moves pass without a pawn move: the game is legal under the automatic fivefold
+/// and 75-move rules however long it gets. No captures, no checks, kings and rooks never move.
+pub fn very_long_game(target: usize) -> Vec<Mv> {
+    fn quiet_knight_moves(p: &Pos) -> Vec<Mv> {
+        let mut ms: Vec<Mv> = p
+            .legal_moves()
+            .into_iter()
+            .filter(|m| matches!(p.sq[m.from as usize], Some((_, Kind::N))) && p.sq[m.to as usize].is_none())
+            .filter(|m| {
+                let n = p.make(*m);
+                !n.in_check(n.stm)
+            })
+            .collect();
+        ms.sort();
+        ms
+    }
+    /// depth-first search for a path of `len` knight moves through positions not in `seen`
+    fn block(p: &Pos, len: usize, seen: &mut std::collections::HashSet<String>, out: &mut Vec<Mv>, budget: &mut u64) -> bool {
+        if len == 0 {
+            return true;
+        }
+        for m in quiet_knight_moves(p) {
+            if *budget == 0 {
+                return false;
+            }
+            let n = p.make(m);
+            let k = n.fen4();
+            if seen.contains(&k) || quiet_knight_moves(&n).is_empty() {
+                continue;
+            }
+            *budget -= 1;
+            seen.insert(k.clone());
+            out.push(m);
+            if block(&n, len - 1, seen, out, budget) {
+                return true;
+            }
+            out.pop();
+            seen.remove(&k);
+        }
+        false
+    }
+    let mut cur = start_pos("startpos");
+    let mut out: Vec<Mv> = Vec::new();
+    while out.len() < target {
+        let want = 148.min(target - out.len());
+        let mut seen = std::collections::HashSet::new();
+        seen.insert(cur.fen4());
+        let mut path = Vec::new();
+        let mut budget = 200_000u64;
+        if !block(&cur, want, &mut seen, &mut path, &mut budget) {
+            break;
+        }
+        for m in &path {
+            cur = cur.make(*m);
+        }
+        out.extend(path);
+        if out.len() >= target {
+            break;
+        }
+        // one single pawn push by the side to move (no capture, no check)
+        let mut pushes: Vec<Mv> = cur
+            .legal_moves()
+            .into_iter()
+            .filter(|m| matches!(cur.sq[m.from as usize], Some((_, Kind::P))) && (m.to as i32 - m.from as i32).abs() == 8 && m.promo.is_none())
+            .filter(|m| {
+                let n = cur.make(*m);
+                !n.in_check(n.stm) && !quiet_knight_moves(&n).is_empty()
+            })
+            .collect();
+        pushes.sort();
+        match pushes.first() {
+            Some(m) => {
+                cur = cur.make(*m);
+                out.push(*m);
+            }
+            None => break,
+        }
+    }
+    out
+}
+
+pub const VERY_LONG_TARGET: usize = 4800;
+
+/// One prefix of the very long game as a single position command (replayed by its length).
+fn check_very_long(e: &mut Engine, rep: &Report, game: &[Mv], positions: &[Pos], l: usize) {
+    if rep.saturated() {
+        return;
+    }
+    let args = vec!["c04-long".to_string(), "--plies".into(), l.to_string()];
+    if crate::crumb::enabled() {
+        crate::crumb::set(&["c04-long", "--plies", &l.to_string()]);
+    }
+    let c = command("startpos", &game[..l]);
+    let want = &positions[l];
+    let sig = format!("C04 very-long-game plies={}", l);
+    match e.run(&[&c]) {
+        Err(err) => rep.violation(sig, format!("position startpos moves <the first {} plies of the built {}-ply game>: {}", l, game.len(), err), args, J::Null),
+        Ok(got) => {
+            let w = eng::key_of_pos(want);
+            if got != w {
+                rep.violation(
+                    sig,
+                    format!("after position startpos moves <the first {} plies of the built {}-ply game> the engine holds {} but the game position is {:?}", l, game.len(), eng::describe_key(&got), want.fen4()),
+                    args,
+                    J::obj().set("last_moves", game[l.saturating_sub(6)..l].iter().map(|m| m.uci()).collect::<Vec<_>>()),
+                );
+            }
+        }
+    }
+}
+
+pub fn replay_very_long(l: usize) -> i32 {
+    let rep = Report::new("C04", "quick", 0);
+    let game = very_long_game(VERY_LONG_TARGET);
+    let mut positions = vec![start_pos("startpos")];
+    for m in &game {
+        let n = positions.last().unwrap().make(*m);
+        positions.push(n);
+    }
+    let mut e = Engine::new();
+    check_very_long(&mut e, &rep, &game, &positions, l.min(game.len()));
+    let v = rep.violations.lock().unwrap();
+    for x in v.iter() {
+        println!("REPLAY-VIOLATION {} :: {}", x.sig, x.text);
+    }
+    if v.is_empty() {
+        println!("REPLAY-OK C04 very long game, {} plies", l);
+        0
+    } else {
+        1
+    }
+}
+
 pub fn run(tier: &str, seed: u64, out: &str) {
     let rep = Report::new("C04", tier, seed);
     let thorough = tier == "thorough";
@@ -515,6 +651,36 @@ pub fn run(tier: &str, seed: u64, out: &str) {
                 .set("games", games.len())
                 .set("game_lengths", games.iter().map(|g| g.1.len()).collect::<Vec<_>>())
                 .set("commands", jobs.len()),
+        );
+    }
+
+    // ---- (g) one very long game (thousands of plies): every prefix
+    if !rep.saturated() {
+        let game = very_long_game(VERY_LONG_TARGET);
+        if game.len() < 4200 {
+            eprintln!("MACHINERY ERROR: the very long game could only be built to {} plies", game.len());
+            std::process::exit(2);
+        }
+        let mut positions = vec![start_pos("startpos")];
+        for m in &game {
+            let n = positions.last().unwrap().make(*m);
+            positions.push(n);
+        }
+        let mut lens: Vec<usize> = (1..=game.len()).collect();
+        lens.reverse(); // longest first: better balance across workers
+        par_map_init(&lens, Engine::new, |e, &l| {
+            check_very_long(e, &rep, &game, &positions, l);
+            commands.fetch_add(1, Ordering::Relaxed);
+        });
+        eprintln!("[C04] very long game: {} plies, {} prefixes sent ({:.1}s)", game.len(), lens.len(), rep.elapsed());
+        transitions_total += lens.len() as u64;
+        cov_parts.push(
+            J::obj()
+                .set("part", "g: prefixes of one built game of thousands of plies (knights wander along a path without repeated positions, a pawn push at least every 148 plies: legal under the fivefold and 75-move rules)")
+                .set("game_plies", game.len())
+                .set("prefix_lengths_sent", lens.len())
+                .set("longest", game.len())
+                .set("selection", "every prefix"),
         );
     }
 
